@@ -2364,7 +2364,11 @@ class _Cover:
             if isinstance(st, sibling.Assign):
                 env[st.n] = red.sx(st.e, env)
             elif isinstance(st, sibling.Store):
-                s.point(red.arr(st.a, env), red.sx(st.i, env), getattr(st, "line", None))
+                sl = s.slice_bounds(st.i, env)
+                if sl is not None:
+                    s.point(red.arr(st.a, env), sl[0], getattr(st, "line", None), lo=sl[0], hi=sl[1])
+                else:
+                    s.point(red.arr(st.a, env), red.sx(st.i, env), getattr(st, "line", None))
             elif isinstance(st, sibling.If):
                 c = red.truth(st.c, env)
                 if c == sp.true:
@@ -2387,6 +2391,19 @@ class _Cover:
                 return
             else:
                 s.unknown.append("statement `%s`" % getattr(st, "text", st))
+
+    def slice_bounds(s, i, env):
+        """(first, last) index of a slice store a[lo:hi] = v (unit step), else None"""
+        if not (isinstance(i, tuple) and i and i[0] == "opaque" and ":" in str(i[1])):
+            return None
+        try:
+            sl = ast.parse("_[%s]" % i[1], mode="eval").body.slice
+        except SyntaxError:
+            return None
+        if not isinstance(sl, ast.Slice) or sl.step is not None or sl.upper is None:
+            return None
+        lo = sp.Integer(0) if sl.lower is None else s.red.sx(_tol_py_expr(sl.lower), env)
+        return lo, s.red.sx(_tol_py_expr(sl.upper), env) - 1
 
     def counts(s, st, env):
         e = dict(env)
@@ -2452,9 +2469,12 @@ class _Cover:
             C = benv[v]
             c = red.truth(st.c, benv)
             start = env[v]
-            if isinstance(c, (sp.Lt, sp.Le, sp.Gt, sp.Ge, sp.Ne)):
+            for c in (c.args if isinstance(c, sp.And) else (c,)):
+                if not isinstance(c, (sp.Lt, sp.Le, sp.Gt, sp.Ge, sp.Ne)):
+                    continue
                 lhs, rhs = c.lhs, c.rhs
                 rel = type(c)
+                old_rng, rng = rng, None
                 if rhs == C and C not in lhs.free_symbols:
                     lhs, rhs = rhs, lhs
                     rel = {sp.Lt: sp.Gt, sp.Le: sp.Ge, sp.Gt: sp.Lt, sp.Ge: sp.Le, sp.Ne: sp.Ne}[rel]
@@ -2467,12 +2487,22 @@ class _Cover:
                         rng = (rhs + 1, start)
                     elif step < 0 and rel is sp.Ge:
                         rng = (rhs, start)
+                # (every conjunct bounds the counter: any one of them gives a superset of the offsets stored; keep the tighter
+                # one where the two can be compared for every nbin)
+                if rng is None:
+                    rng = old_rng
+                elif old_rng is not None:
+                    a, b = [_affine_n(x, s.N) for x in old_rng], [_affine_n(x, s.N) for x in rng]
+                    if None in b or (None not in a and not (_le_all(a[0], b[0]) and _le_all(b[1], a[1]))):
+                        rng = old_rng                 # the new range is not understood, or not inside the one already known
         for x in stores:
             arr = red.arr(x.a, benv)
             idx = red.sx(x.i, benv)
             ln = getattr(x, "line", None)
             if arr != s.P5:
                 s.point(arr, idx, ln)
+            elif len(ctr) == 1 and s.index_area(idx, benv[list(ctr)[0]], env[list(ctr)[0]], list(ctr.values())[0]):
+                continue                              # slots of the index area (at or past nbin + 1), filled by a pass of its own
             elif rng is not None and idx.free_symbols & {benv[v] for v in ctr}:
                 (v, step), = ctr.items()
                 s.point(arr, idx, ln, lo=idx.subs(benv[v], rng[0]), hi=idx.subs(benv[v], rng[1]))
@@ -2484,6 +2514,16 @@ class _Cover:
                 s.unknown.append("store rev[%s] in the loop at line %s" % (idx, getattr(st, "line", None)))
         for v in carried:
             env[v] = s.fresh(v)
+
+    def index_area(s, idx, C, start, step):
+        """the index reached with an upward counter C from `start` never lies below nbin + 1"""
+        try:
+            if step <= 0 or not (sp.diff(idx, C).is_Integer and sp.diff(idx, C) >= 0):
+                return False
+            a = _affine_n(idx.subs(C, start), s.N)
+            return a is not None and _le_all((1, 1), a)
+        except Exception:
+            return False
 
     def verdict(s):
         """(ok, text)"""
@@ -2512,8 +2552,8 @@ def offset_rule(chk, tag, ir, roles, where_of):
         cov.walk(ir, {})
     except _TOL + (sp.SympifyError, ValueError, RecursionError) as e:
         cov.unknown.append("engine body (%s)" % e)
-    if cov.passes != 1:
-        cov.unknown.append("%d loops that increment hist" % cov.passes)
+    if cov.passes < 1:
+        cov.unknown.append("no loop that increments hist")
     ok, t = cov.verdict()
     got = sorted({"[%s, %s]" % (_aff_text(lo), _aff_text(hi)) if lo != hi else "[%s]" % _aff_text(lo) for lo, hi, ln in cov.iv})
     lines = sorted({ln for lo, hi, ln in cov.iv if ln})
@@ -3291,6 +3331,16 @@ def abi(chk, repo, cfn):
     engine_callers(chk, repo, dh)
 
 
+class _Unbool(ast.NodeTransformer):
+    """bool(x) in a test is the truth of x"""
+
+    def visit_Call(self, n):
+        self.generic_visit(n)
+        if isinstance(n.func, ast.Name) and n.func.id == "bool" and len(n.args) == 1 and not n.keywords:
+            return n.args[0]
+        return n
+
+
 def _rev_when_needed(st, revarg, dh, kind, why):
     """per-path verdicts of R05.3 reverse-indices-whenever-needed for the path st of the engine dispatcher, whose one engine
     call (kind 'c' / 'py') receives `revarg` as the reverse-index array.  The need is a function of two inputs: the truth of
@@ -3302,6 +3352,17 @@ def _rev_when_needed(st, revarg, dh, kind, why):
     rev_p = dh.params[6] if len(dh.params) > 6 else None
     if rev_p is None:
         return [None]
+    if isinstance(revarg, ast.IfExp):
+        # a conditional value: each arm, with the tests that select it added to the path's decisions
+        cases = _cond_cases(revarg, {})
+        if cases is None:
+            return [None]
+        out = []
+        for v, cs in cases:
+            t = st.fork()
+            t.conds = list(st.conds) + list(cs)
+            out.extend(_rev_when_needed(t, v, dh, kind, why))
+        return out
     if not _is_none(revarg):
         return [True if _zeros(revarg) is not None else None]
     out = []
@@ -3312,7 +3373,7 @@ def _rev_when_needed(st, revarg, dh, kind, why):
             names = {norm(x) for x in ast.walk(t) if isinstance(x, (ast.Name, ast.Attribute))}
             if not names & {rev_p, "self.weights"}:
                 continue
-            v = eval_test(t, flags)
+            v = eval_test(_Unbool().visit(copy.deepcopy(t)), flags)
             if v is None:
                 verdict = None
             elif v != truth:
